@@ -149,6 +149,19 @@ def run(repo, tier):
                 src_ok = len(hargs) >= 2 and hargs[0] == a_out and hargs[1] == ('bin', '+', a_out, C('.hex'))
                 rep.check(off_ok and src_ok, 'R17.4.hex-args', 'bin2hex(output, output + ".hex", int(hex_offset, 0))',
                           lambda node=node, hargs=hargs: Finding('R17.4.hex-args', 'cli_main', node, 'bin2hex is called with {}'.format([show(h) for h in hargs]), line=node.lineno))
+            # R17.4 the hex file is produced whenever --hex-offset was given (and only then)
+            a_hex = ('attr', p.env.get('args', ('name', 'args')), 'hex_offset')
+            fh = p.facts.get(a_hex)
+            given = fh.get('truthy') if fh else None
+            hexes = [e for e in evs if e[0] == 'HEX']
+            if p.end != 'raise' and given is True:
+                rep.check(bool(hexes), 'R17.4.hex-produced', 'a successful run with --hex-offset writes the hex file',
+                          lambda p=p: Finding('R17.4.hex-produced', 'cli_main', [e for e in evs if e[0] == 'W'][-1][2] if [e for e in evs if e[0] == 'W'] else asm[0][2],
+                                              'there is a successful path on which --hex-offset was given but no Intel HEX file is written (the decision is taken on something other than '
+                                              'the presence of the option, e.g. on the parsed value, so `--hex-offset 0` is skipped)', line=asm[0][2].lineno))
+            if p.end != 'raise' and given is False:
+                rep.check(not hexes, 'R17.4.hex-produced', 'no hex file without --hex-offset',
+                          lambda: Finding('R17.4.hex-produced', 'cli_main', hexes[0][2], 'a hex file is written although --hex-offset was not given', line=hexes[0][2].lineno), nontrivial=False)
             # argument wiring
             kws = dict(asm_call[3])
             a = p.env.get('args', ('name', 'args'))
